@@ -10,6 +10,8 @@ import (
 	"net/url"
 	"os"
 	"strings"
+	"sync"
+	"time"
 
 	"github.com/jdillenkofer/pithos/internal/http/server"
 	"github.com/jdillenkofer/pithos/internal/http/server/authorization"
@@ -114,3 +116,53 @@ func readReplay(path string, into any) (seed uint64, tier string) {
 }
 
 func sp(s string) *string { return &s }
+
+// stallGuard is the generous per-case watchdog: a single request that does not
+// return (e.g. a reader that keeps delivering zero bytes) would otherwise only
+// be stopped by the driver's global watchdog without naming the case. Wall
+// clock is used for nothing else; expiry => inconclusive, never a verdict.
+type stallGuard struct {
+	mu     sync.Mutex
+	active map[int64]stallEntry
+	next   int64
+}
+
+type stallEntry struct {
+	what  string
+	since time.Time
+}
+
+func newStallGuard(r *vkit.Run, limit time.Duration) *stallGuard {
+	g := &stallGuard{active: map[int64]stallEntry{}}
+	go func() {
+		for {
+			time.Sleep(2 * time.Second)
+			g.mu.Lock()
+			for _, e := range g.active {
+				if time.Since(e.since) > limit {
+					g.mu.Unlock()
+					fmt.Printf("STALLED case (no answer within %s): %s\n", limit, e.what)
+					r.Inconclusive("a request did not return within " + limit.String() + ": " + e.what)
+					r.Finish()
+				}
+			}
+			g.mu.Unlock()
+		}
+	}()
+	return g
+}
+
+func (g *stallGuard) begin(what string) int64 {
+	g.mu.Lock()
+	g.next++
+	id := g.next
+	g.active[id] = stallEntry{what, time.Now()}
+	g.mu.Unlock()
+	return id
+}
+
+func (g *stallGuard) end(id int64) {
+	g.mu.Lock()
+	delete(g.active, id)
+	g.mu.Unlock()
+}
